@@ -226,7 +226,7 @@ Lemma ZSInv_final c s ds dn : ZSInv c s ds dn ->
 Proof.
   intros ((Hh & He & Hk & Hw & Hok & Hsh & Htl) & _ & _).
   exists (map (abs_fd (srv c)) ds).
-  change (wire_of s) with (wire (mw s)). rewrite Hw.
+  rewrite wire_of_spec, Hw.
   split; [apply rfc_parse_enc; exact Hok|].
   destruct (Htl []) as [A B]. rewrite app_nil_r in A, B.
   split.
